@@ -50,6 +50,10 @@ type duplexHTTPCall struct {
 	readClosed    chan struct{}
 	readCloseOnce sync.Once
 
+	// onRequestSend, if set, runs once, in the goroutine of the first Write or
+	// CloseWrite, right before the request is handed to the HTTP client.
+	onRequestSend func(http.Header)
+
 	errMu sync.Mutex
 	err   error
 }
@@ -263,6 +267,9 @@ func (d *duplexHTTPCall) BlockUntilResponseReady() {
 
 func (d *duplexHTTPCall) ensureRequestMade() {
 	d.sendRequestOnce.Do(func() {
+		if d.onRequestSend != nil {
+			d.onRequestSend(d.request.Header)
+		}
 		go d.makeRequest()
 	})
 }
